@@ -43,8 +43,47 @@ NEEDS = {
  "C20-1": ("CleanupChannel keeps dtChannelsLk (defer Unlock) while it runs dtChannel.cleanup", "incoming graphsync request hook (holds the channel lock, applies transport options -> trackDTChannel) concurrent with the cleanup of the same channel"),
  "C20-2": ("CloseDataTransferChannel stores the Cancel result in the err variable captured by the cancel-sending goroutine", "any close: the goroutine writes err while the caller writes/reads it (visible to go test -race only)"),
  "C20-3": ("progressCache.setDataLimit does its map write under the read lock", "data limit changed on a cached channel while blocks are being reported on any channel"),
+ "C01-3": ("ResponderCompletes also leads ResponderFinalizing (not only ...TransferFinished) to Completing", "paused Complete, then final Complete, both before the initiator's own transport finishes"),
+ "C01-4": ("OnChannelCompleted records Accept when still AwaitingAcceptance and ReceivedCidsTotal()>0", "pull satisfied entirely from the initiator's own store (blocks traversed but none received over the wire)"),
+ "C02-3": ("RestartDataTransferChannel on a terminal channel publishes a synthetic CleanupComplete event", "restart of a Completed/Failed/Cancelled channel while a subscriber listens"),
+ "C02-4": ("terminated guard moved from ReceiveRestartExistingChannelRequest into openPushRestartChannel only", "restart-existing request for a terminal PULL channel we initiated"),
+ "C03-3": ("ResponderCompletes also leads ResponderFinalizing to Completing", "ResponderBeginsFinalization then ResponderCompletes with no FinishTransfer yet"),
+ "C03-4": ("LeaveRequestPaused returns early on DataLimit != 0 and ignores RequiresFinalization", "Finalizing responder gets an accepting update that still requires finalization and carries a data limit above progress"),
+ "C04-3": ("requestError: case stayPaused placed before case !Accepted", "validator rejects with ForcePause set"),
+ "C04-4": ("handleTransportUpdate returns early when the transfer is in finalization, skipping the close", "UpdateValidationStatus(Accepted:false) while Finalizing"),
+ "C05-3": ("restart-existing terminated check uses Status().InFinalization()", "restart-existing request for a Failed or Cancelled channel we initiated"),
+ "C05-4": ("validateRestartRequest compares only the multihash of the base CID", "restart request whose base CID has the same hash but another codec"),
+ "C06-3": ("RestartDataTransferChannel guard uses Status().TransferComplete()", "channel persisted in Cancelling/Failing/Completing, then restarted"),
+ "C06-4": ("Channels.InProgress skips terminated channels", "listing after some channel reached a terminal status"),
+ "C07-3": ("gsBlockSentHook no longer filters blocks not put on the wire and reports unique=true", "a block position above the sent index that was not put on the wire (duplicate block in the DAG)"),
+ "C07-4": ("updateIfGreater seeds the cache with 0 when the reported index is 1", "after a process restart, a replay that starts at position 1"),
+ "C08-3": ("progressCache.progress returns the pause signal only on the report that crosses the limit", "any report that starts at or beyond the limit (also after restart / unchanged limit)"),
+ "C08-4": ("LeaveRequestPaused computes DataLimit - transferred in uint64 and tests == 0", "new limit strictly between 0 and the progress already made"),
+ "C09-3": ("CloseDataTransferChannel returns the transport's CloseChannel error instead of logging it", "close while the transport cannot close (request never started / transport error)"),
+ "C09-4": ("dtChannel.cleanup deletes only the current request's mapping", "cleanup after a local close (current request already forgotten) or of a restarted channel"),
+ "C10-3": ("dtChannel.open only logs a failed/timed-out cancel of the previous request and re-opens", "graphsync cannot cancel the old request"),
+ "C10-4": ("receiveRequest shadows `channel` on the push-restart path: OpenChannel gets a nil channel state", "push restart on the responder with >= 1 block already received"),
+ "C11-3": ("PauseResponder loses TransferFinished as a source status (shared activeStates refactor)", "responder pauses after the initiator's own side has finished"),
+ "C11-4": ("SelfPaused() reads the raw flags (drops the Finalizing term for the responder)", "initiator resumes while the responder awaits finalization"),
+ "C12-3": ("wire structs store the transfer ID as int64", "transfer ID >= 2^63"),
+ "C12-4": ("decode-time base-CID check dereferences a nil *cid.Cid", "new/restart request on the wire with a null BCid"),
+ "C13-3": ("MigrateChannelState2To3 raises Queued to Sent when a data limit is set and Queued < Sent", "version-2 record with DataLimit != 0 and Queued < Sent"),
+ "C13-4": ("Channels.InProgress answers an empty map instead of ErrMigrationsNotRun", "listing before Start / before the migration ran"),
+ "C14-3": ("OpenPush/PullDataChannel add the channel to the monitor only after the request was sent", "the responder's acceptance is processed before the open call returns"),
+ "C14-4": ("restartChannel refactor: endRestart always clears restartedAt", "a third restart request arrives while the queued restart is running"),
+ "C15-3": ("openStream gives up when the PER-ATTEMPT context is done", "an open attempt that times out before a later one would succeed"),
+ "C15-4": ("dispatch helper lost the else/return after the restart-existing branch", "inbound restart-existing-channel request"),
+ "C16-3": ("processExtension checks only the roles, not the transfer ID, against the owning channel", "message for transfer 2 arriving on the graphsync request of transfer 1 (same peers)"),
+ "C16-4": ("dtChannel.cleanup skips deleteRefs when requestID is nil", "close, then cleanup, then a late graphsync callback"),
+ "C17-3": ("notifier publishes on its own goroutine and stops waiting after 5 s", "a subscriber that takes longer than 5 s on one event"),
+ "C17-4": ("channelsubscriptions keeps an `active` counter that is decremented for channels that never had a subscriber", "a channel without per-transfer subscriber terminates while a subscribed one is live"),
+ "C18-3": ("CreateNew primes the block-index and progress caches before Begin", "duplicate creation of an existing channel that already moved data / has a limit"),
+ "C18-4": ("timeCounter.next does Add(1) and then returns a separate Load()", "two concurrent opens"),
+ "C19-3": ("SendVoucherResult returns early (after sending) for channels in finalization", "voucher result sent while Finalizing"),
+ "C19-4": ("processUpdateVoucher drops a voucher equal to the last recorded one", "two consecutive identical vouchers / a first update repeating the opening voucher"),
  "C19-2": ("NewVoucher restricted to a hand-built status list that omits ResponderFinalizingTransferFinished", "SendVoucher while the initiator is in ResponderFinalizingTransferFinished"),
 }
+NOT_CAUGHT={"C17-3":"needs the asynchronous notification queue of go-statemachine (a subscriber slower than 5 s lets the next notification overtake); the synchronous model group delivers notifications inside Send, so ordering under slow subscribers is declared outside the claim"}
 os.makedirs(DST, exist_ok=True)
 n=0
 for key,(what,needs) in sorted(NEEDS.items()):
@@ -72,6 +111,11 @@ for key,(what,needs) in sorted(NEEDS.items()):
          f"go test -vet=off -count=1 -timeout 25m ./...   (with patch: rc={su})",
          f"VERIF_REPO=<scratch> /verif/bin/symgo check --property {p}"],
         "suite_note":flaky or "full pinned suite passes with the patch"}}
+    if key in NOT_CAUGHT: meta["not_caught_reason"]=NOT_CAUGHT[key]
+    if key=="C20-2":
+        meta["demo_needs_race_detector"]=True
+        meta["confirmed_by_me"]["commands"]=[c.replace("go test -vet=off","go test -race -vet=off") if "demo" in c else c for c in meta["confirmed_by_me"]["commands"]]
+    meta["round"]=1 if int(k)<=2 or p=="C20" else 2
     json.dump(meta,open(f"{out}/meta.json","w"),indent=1)
     n+=1
 print("kept",n)
